@@ -344,11 +344,13 @@ def m_cases(tier):
     for n in ((2, 3, 4) if tier == "quick" else (1, 2, 3, 4, 5)):
         for idx in range(n):
             cs.append(calc_speeds_case(n, idx))
+    # bounded runs: braking curve + controller over every phase of the time-step grid (stop at the end of the path; slowdown)
+    cs += [bounded_run_case(3), bounded_run_case(4, 1, True, True)]
     return cs
 
 
 # ---------------------------------------------------------------- bounded run: braking curve + controller together
-def bounded_run_case(K=3, kmax=1, coast=True):
+def bounded_run_case(K=3, kmax=1, coast=True, slow=False):
     """SpeedLimitTrainSim::recalc_braking_points followed by K control steps (solve_required_pwr) of a train that approaches the end of
     its path at a symbolic position and speed: the overspeed assert of calc_speeds is the oracle (it aborts the process when the train
     is above the limit in force), plus non-negative speed and 'never beyond the end of the path'."""
@@ -363,7 +365,7 @@ def bounded_run_case(K=3, kmax=1, coast=True):
     L = Sym("L")
     flat = [{"offset": 0, "res_coeff": 0, "res_net": 0}, {"offset": L, "res_coeff": 0, "res_net": 0}]
     tpc = {"link_points": [{"offset": 0, "grade_count": 0, "curve_count": 0, "cat_power_count": 0, "link_idx": 1}, {"offset": L, "grade_count": 0, "curve_count": 0, "cat_power_count": 0, "link_idx": 0}],
-           "grades": flat, "curves": flat, "speed_points": [{"offset": 0, "speed_limit": Sym("sl0")}], "cat_power_limits": [],
+           "grades": flat, "curves": flat, "speed_points": [{"offset": 0, "speed_limit": Sym("sl0")}] + ([{"offset": Sym("so1"), "speed_limit": Sym("sl1")}] if slow else []), "cat_power_limits": [],
            "train_params": {"length": Sym("ts_length"), "speed_max": 30, "towed_mass_static": 1000, "mass_per_brake": 100, "axle_count": 4, "train_type": "Freight",
                             "curve_coeff_0": 0, "curve_coeff_1": 0, "curve_coeff_2": 0},
            "is_finished": False}
@@ -390,14 +392,25 @@ def bounded_run_case(K=3, kmax=1, coast=True):
     def assume(S):
         a = concrete["fb_force_max"] / MASS * DT
         Lc = concrete["L"]
+        W = kmax + 1
+        if slow:
+            return [(f"slowdown from sl0 to sl1 of at most {kmax} velocity steps of {a} m/s, both positive", z3.And(S["sl1"] > 0, S["sl0"] > S["sl1"], S["sl0"] <= S["sl1"] + kmax * a)),
+                    (f"the approach speed is at most {kmax + 1} velocity steps (bounds the stop curve that recalc also builds)", S["sl0"] <= (kmax + 1) * a),
+                    ("the slower section starts in the middle of the path", z3.And(S["so1"] >= 2000, S["so1"] <= 8000)),
+                    ("the train cruises at the posted limit", S["ts_speed"] == S["sl0"]),
+                    (f"the train starts between {W + 1} and {W} steps of travel before the slower section (every phase of the time-step grid relative to the braking curve)",
+                     z3.And(S["so1"] - S["ts_offset"] >= W * DT * S["sl0"], S["so1"] - S["ts_offset"] < (W + 1) * DT * S["sl0"]))]
         return [(f"0 < posted limit <= {kmax} velocity steps of {a} m/s (bounds the curve length)", z3.And(S["sl0"] > 0, S["sl0"] <= kmax * a)),
                 ("the train cruises at the posted limit", S["ts_speed"] == S["sl0"]),
-                ("the train starts between three and two steps of travel before the end of the path (every phase of the time-step grid relative to the braking curve)",
-                 z3.And(Lc - S["ts_offset"] >= 2 * DT * S["sl0"], Lc - S["ts_offset"] < 3 * DT * S["sl0"]))]
+                (f"the train starts between {W + 1} and {W} steps of travel before the end of the path (every phase of the time-step grid relative to the braking curve)",
+                 z3.And(Lc - S["ts_offset"] >= W * DT * S["sl0"], Lc - S["ts_offset"] < (W + 1) * DT * S["sl0"]))]
+
+    def posted(c):
+        return IF(XLE(c.S["so1"], c.post["state.offset"]), c.S["sl1"], c.S["sl0"]) if slow else c.S["sl0"]
 
     claims = [
         Claim("speed never negative", lambda c: XLE(0, c.post["state.speed"]), when="ok", role="run_speed_nonneg"),
-        Claim("speed never above the posted limit", lambda c: LE(c.post["state.speed"], c.S["sl0"]), when="ok", role="run_speed_le_posted"),
+        Claim("speed never above the posted limit at the train's position", lambda c: LE(c.post["state.speed"], posted(c)), when="ok", role="run_speed_le_posted"),
         Claim("speed never above the limit in force", lambda c: LE(c.post["state.speed"], c.post["state.speed_limit"]), when="ok", role="run_speed_le_limit_in_force"),
         Claim("front never beyond the end of the path", lambda c: LE(c.post["state.offset"], concrete["L"]), when="ok", role="run_within_path"),
         Claim("the overspeed assert never fires (no panic)", None, when="nopanic", role="run_no_panic"),
@@ -406,7 +419,7 @@ def bounded_run_case(K=3, kmax=1, coast=True):
     for _ in range(K):
         # what solve_step does around the controller as far as braking is concerned: refresh the brake force available in this step
         calls += [Call("FricBrake::set_cur_force_max_out", [("si::Time", DT)], recv_path="fric_brake"), Call("SpeedLimitTrainSim::solve_required_pwr", [])]
-    return Case(f"bounded_run_K{K}_k{kmax}", "C03", "SpeedLimitTrainSim", recv, calls, assume, claims,
-                bounds={"steps": K, "posted sections": 1, "curve length": f"posted limit <= {kmax} velocity steps", "dt": f"{DT} s (concrete)", "train mass": f"{MASS} kg (concrete)", "track": "level, no resistance, 10 km", "brake force": "1000 N (1 m/s per step)", "train length": "100 m",
-                        "traction": "none (coasting train): only the braking side of the controller is exercised", "start": "cruising at the posted limit, symbolic position two to three steps of travel before the end of the path (all phases)"},
+    return Case(f"bounded_run_{'slowdown' if slow else 'stop'}_K{K}_k{kmax}", "C03", "SpeedLimitTrainSim", recv, calls, assume, claims,
+                bounds={"steps": K, "posted sections": 2 if slow else 1, "curve length": f"posted limit <= {kmax} velocity steps", "dt": f"{DT} s (concrete)", "train mass": f"{MASS} kg (concrete)", "track": "level, no resistance, 10 km", "brake force": "1000 N (1 m/s per step)", "train length": "100 m",
+                        "traction": "none (coasting train): only the braking side of the controller is exercised", "start": f"cruising at the posted limit, symbolic position {kmax + 1} to {kmax + 2} steps of travel before the " + ("slower section" if slow else "end of the path") + " (all phases)"},
                 expect_ok=True, max_paths=60000, loop_bound=14, timeout_ms=90000, check_side=False)
